@@ -65,7 +65,7 @@ def _rec(spec):
     return _rt.record_analysis(spec)
 
 
-def trace_specs(tier, seed, variants_of, n_quick=10, n_thorough=80, backends=("numba", "numpy")):
+def trace_specs(tier, seed, variants_of, n_quick=10, n_thorough=80, backends=("numba", "numpy"), extra=()):
     rnd = _random.Random(4242 + seed)
     specs = []
     n = n_quick if tier == "quick" else n_thorough
@@ -77,6 +77,8 @@ def trace_specs(tier, seed, variants_of, n_quick=10, n_thorough=80, backends=("n
                           Lmin=1 if sch == "lpsd" else rnd.choice([1, 64]), psll=rnd.choice([60, 120, 200]), variants=variants_of(rnd)))
         if i % 5 == 4:            # a record with > 1e17 power dynamic range between bins: needs the 200 dB window and order -1/0 only
             specs[-1].update(data="dynrange", win="kaiser", psll=200, order=rnd.choice([-1, 0]))
+    for e in extra:
+        specs.append(dict(e, seed=rnd.randrange(2 ** 31), variants=variants_of(rnd)))
     return specs
 
 
